@@ -1,155 +1,168 @@
-(* C13: lemmas about schedules, the two adaptors, `drive` and the document loop. *)
+(* C13: lemmas about schedules, the two adaptors, `drive` and the document loop
+   (model after /repo a2b77a7: the adaptors use the count returned by Read). *)
 From Mxj Require Import Spec.StreamSpec.
 Import ListNotations.
 
 (* ------------------------------------------------------------------ schedules *)
 
-Definition clean_for (X : str) (sc : list rev) : Prop := exists k, sc = map Data X ++ repeat Eof k.
-
-Lemma only_eof_repeat : forall sc, only_eof sc = true -> sc = repeat Eof (length sc).
-Proof.
-  induction sc as [|e t IH]; intro H; [reflexivity|].
-  destruct e; try discriminate. cbn in *. f_equal. auto.
-Qed.
+(* the next event that is not a (0, nil) read *)
+Fixpoint next_event (sc : list rev) : rev * list rev :=
+  match sc with
+  | [] => (Eof, [])
+  | Zero :: t => next_event t
+  | e :: t => (e, t)
+  end.
+(* what a reader that retries on (0, nil) and uses the byte when n > 0 returns for it *)
+Definition ev_res (p : rev * list rev) : rbres * list rev :=
+  match fst p with
+  | Data b | DataEOF b => (RBByte b, snd p)
+  | _ => (RBErr RBEof, snd p)
+  end.
 
 Lemma only_eof_delivered : forall sc, only_eof sc = true -> delivered sc = [].
 Proof.
   induction sc as [|e t IH]; intro H; [reflexivity|]. destruct e; try discriminate. cbn in *. auto.
 Qed.
-
-Lemma clean_shape : forall sc X, legal X sc -> clean sc = true -> clean_for X sc.
+Lemma only_eof_legal : forall sc, only_eof sc = true -> legal_tail sc = true.
+Proof. induction sc as [|e t IH]; intro H; [reflexivity|]. destruct e; try discriminate. exact H. Qed.
+Lemma only_eof_zb : forall sc cur, only_eof sc = true -> zb_aux 100 cur sc = true.
 Proof.
-  induction sc as [|e t IH]; intros X [Hd Hl] Hc.
-  - cbn in Hd. subst X. exists 0. reflexivity.
-  - destruct e; cbn in Hc; try discriminate.
-    + cbn in Hd, Hl. destruct X as [|x X]; [discriminate|]. injection Hd as Hb Hd. subst x.
-      destruct (IH X) as [k Hk]; [split; assumption|assumption|]. exists k. cbn. now rewrite Hk.
-    + cbn in Hd, Hl. rewrite (only_eof_delivered _ Hl) in Hd. subst X.
-      exists (S (length t)). cbn. f_equal. now apply only_eof_repeat.
+  induction sc as [|e t IH]; intros cur H; [reflexivity|]. destruct e; try discriminate. cbn in *. now apply IH.
 Qed.
 
-Lemma only_eof_rep : forall k, only_eof (repeat Eof k) = true.
-Proof. induction k; cbn; auto. Qed.
-Lemma delivered_rep : forall k, delivered (repeat Eof k) = [].
-Proof. induction k; cbn; auto. Qed.
-
-Lemma clean_for_legal : forall X k, legal X (map Data X ++ repeat Eof k) /\ clean (map Data X ++ repeat Eof k) = true.
+(* what legality says about the next event *)
+Lemma next_legal : forall sc, legal_tail sc = true ->
+  legal_tail (snd (next_event sc)) = true /\
+  length (snd (next_event sc)) <= length sc /\ (sc <> [] -> length (snd (next_event sc)) < length sc) /\
+  match fst (next_event sc) with
+  | Data b => delivered sc = b :: delivered (snd (next_event sc))
+  | DataEOF b => delivered sc = b :: delivered (snd (next_event sc))
+  | Eof => delivered sc = [] /\ delivered (snd (next_event sc)) = []
+  | Zero => False
+  end.
 Proof.
-  induction X as [|b X IH]; intro k; cbn.
-  - split; [split|].
-    + apply delivered_rep.
-    + destruct k; cbn; [reflexivity|apply only_eof_rep].
-    + induction k; cbn; auto.
-  - destruct (IH k) as [[Hd Hl] Hc]. split; [split|]; cbn; try assumption. now rewrite Hd.
+  induction sc as [|e t IH]; intro H.
+  - cbn. repeat split; auto. congruence.
+  - destruct e; cbn in *.
+    + split; [exact H|]. split; [lia|]. split; [intros _; lia|reflexivity].
+    + split; [now apply only_eof_legal|]. split; [lia|]. split; [intros _; lia|reflexivity].
+    + destruct (IH H) as (H1 & H2 & H3 & H4). split; [exact H1|]. split; [lia|]. split; [|exact H4].
+      intros _. destruct t; [cbn; lia|]. specialize (H3 ltac:(discriminate)). lia.
+    + rewrite (only_eof_delivered _ H). split; [now apply only_eof_legal|]. split; [lia|]. split; [intros _; lia|auto].
 Qed.
 
-Lemma clean_for_length : forall X sc, clean_for X sc -> length X <= length sc.
-Proof. intros X sc [k ->]. rewrite app_length, map_length. lia. Qed.
+Lemma delivered_length : forall sc, length (delivered sc) <= length sc.
+Proof. induction sc as [|e t IH]; cbn; [lia|]. destruct e; cbn; lia. Qed.
+
+(* ------------------------------------------------------------------ the three reading loops *)
+
+Lemma jr_read_spec : forall sc, jr_read_byte sc = ev_res (next_event sc).
+Proof. induction sc as [|e t IH]; [reflexivity|]. destruct e; cbn; auto. Qed.
+
+Lemma br_loop_spec : forall sc cur i, i + cur = 100 -> 0 < i -> zb_aux 100 cur sc = true ->
+  br_loop i sc = ev_res (next_event sc) /\ zero_bounded (snd (next_event sc)) = true.
+Proof.
+  induction sc as [|e t IH]; intros cur i Hi Hp Hz; (destruct i as [|i]; [lia|]).
+  - split; reflexivity.
+  - destruct e; cbn in Hz |- *.
+    + split; [reflexivity|exact Hz].
+    + split; [reflexivity|exact Hz].
+    + apply andb_true_iff in Hz as [Hc Hz]. apply Nat.leb_le in Hc. apply (IH (S cur) i); [lia|lia|exact Hz].
+    + split; [reflexivity|exact Hz].
+Qed.
+
+Lemma br_read_spec : forall sc, zero_bounded sc = true ->
+  br_read_byte sc = ev_res (next_event sc) /\ zero_bounded (snd (next_event sc)) = true.
+Proof. intros sc H. apply (br_loop_spec sc 0 100); [reflexivity|lia|exact H]. Qed.
+
+Lemma tr_loop_br : forall i w sc,
+  tr_loop i {| tr_w := w; tr_r := sc |} =
+  (fst (br_loop i sc),
+   {| tr_w := match fst (br_loop i sc) with RBByte b => w ++ [b] | _ => w end; tr_r := snd (br_loop i sc) |}).
+Proof.
+  induction i as [|i IH]; intros w sc; [reflexivity|]. cbn [tr_loop br_loop tr_r tr_w].
+  destruct (read_into sc) as [[[n err] b] S']. destruct (Nat.ltb 0 n); [reflexivity|]. destruct err; [reflexivity|]. apply IH.
+Qed.
 
 (* ------------------------------------------------------------------ adaptor_transparent *)
 
 Lemma firstn_repeat {A} (a : A) : forall n m, n <= m -> firstn n (repeat a m) = repeat a n.
 Proof. induction n; intros m H; [reflexivity|]. destruct m; [lia|]. cbn. f_equal. apply IHn. lia. Qed.
 
-Lemma br_results_eofs : forall n k b,
-  map view_of (br_results n {| br_b := b; br_r := repeat Eof k |}) = repeat VEof n.
+Lemma transparent_cons : forall b X n, transparent (b :: X) (S n) = RBByte b :: transparent X n.
 Proof.
-  induction n; intros k b; [reflexivity|].
-  destruct k; cbn; f_equal; [apply (IHn 0)|apply IHn].
+  intros b X n. unfold transparent. cbn [map app firstn]. f_equal.
+  change (RBErr RBEof :: repeat (RBErr RBEof) n) with (repeat (RBErr RBEof) (S n)).
+  rewrite !firstn_app, !map_length. f_equal. rewrite !firstn_repeat by lia. reflexivity.
+Qed.
+Lemma transparent_nil : forall n, transparent [] (S n) = RBErr RBEof :: transparent [] n.
+Proof. intro n. unfold transparent. cbn [map app]. cbn [repeat firstn]. reflexivity. Qed.
+
+Lemma adaptor_transparent_br : forall n X sc, legal X sc -> zero_bounded sc = true ->
+  br_results n sc = transparent X n.
+Proof.
+  induction n as [|n IH]; intros X sc [Hd Hl] Hz; [reflexivity|].
+  cbn [br_results]. destruct (br_read_spec sc Hz) as [E Hz']. rewrite E.
+  destruct (next_legal sc Hl) as (Hl' & _ & _ & Hev).
+  destruct (next_event sc) as [e t]. cbn [fst snd] in *. unfold ev_res; cbn [fst snd].
+  destruct e; try contradiction.
+  - rewrite <- Hd, Hev, transparent_cons. f_equal. apply IH; [split; [reflexivity|exact Hl']|exact Hz'].
+  - rewrite <- Hd, Hev, transparent_cons. f_equal. apply IH; [split; [reflexivity|exact Hl']|exact Hz'].
+  - destruct Hev as [H0 Ht]. rewrite <- Hd, H0, transparent_nil. f_equal. rewrite <- Ht.
+    apply IH; [split; [reflexivity|exact Hl']|exact Hz'].
 Qed.
 
-Lemma br_transparent_shape : forall X n k b,
-  map view_of (br_results n {| br_b := b; br_r := map Data X ++ repeat Eof k |}) = transparent X n.
+Lemma adaptor_transparent_tr : forall n X sc w, legal X sc -> zero_bounded sc = true ->
+  let '(rs, t) := tr_results n {| tr_w := w; tr_r := sc |} in
+  rs = transparent X n /\ tr_w t = w ++ firstn n X.
 Proof.
-  unfold transparent. induction X as [|x X IH]; intros n k b.
-  - cbn [map app]. rewrite br_results_eofs. symmetry. apply firstn_repeat. lia.
-  - destruct n; [reflexivity|]. cbn. f_equal. rewrite IH.
-    (* firstn n (map VByte X ++ repeat VEof n) = firstn n (map VByte X ++ VEof :: repeat VEof n) *)
-    change (VEof :: repeat VEof n) with (repeat VEof (S n)).
-    rewrite !firstn_app, !map_length.
-    f_equal. rewrite !firstn_repeat by lia. reflexivity.
+  induction n as [|n IH]; intros X sc w [Hd Hl] Hz; [cbn; now rewrite app_nil_r|].
+  cbn [tr_results]. unfold tr_read_byte. rewrite tr_loop_br. fold (br_read_byte sc).
+  destruct (br_read_spec sc Hz) as [E Hz']. rewrite E.
+  destruct (next_legal sc Hl) as (Hl' & _ & _ & Hev).
+  destruct (next_event sc) as [e t]. cbn [fst snd] in *. unfold ev_res; cbn [fst snd].
+  destruct e; try contradiction.
+  - specialize (IH (delivered t) t (w ++ [b]) (conj eq_refl Hl') Hz'). destruct (tr_results n _) as [rs t'].
+    destruct IH as [-> ->]. rewrite <- Hd, Hev, transparent_cons. cbn [firstn]. now rewrite <- app_assoc.
+  - specialize (IH (delivered t) t (w ++ [b]) (conj eq_refl Hl') Hz'). destruct (tr_results n _) as [rs t'].
+    destruct IH as [-> ->]. rewrite <- Hd, Hev, transparent_cons. cbn [firstn]. now rewrite <- app_assoc.
+  - destruct Hev as [H0 Ht]. specialize (IH (delivered t) t w (conj eq_refl Hl') Hz'). destruct (tr_results n _) as [rs t'].
+    destruct IH as [-> ->]. rewrite <- Hd, H0, transparent_nil, Ht. cbn [firstn]. split; [reflexivity|].
+    destruct n; reflexivity.
 Qed.
 
-Lemma adaptor_transparent_br : forall X sc n, legal X sc -> clean sc = true ->
-  map view_of (br_results n (my_byte_reader sc)) = transparent X n.
-Proof.
-  intros X sc n Hl Hc. destruct (clean_shape _ _ Hl Hc) as [k ->]. apply br_transparent_shape.
-Qed.
-
-Lemma tr_results_eofs : forall n k b w,
-  let '(rs, t) := tr_results n {| tr_b := b; tr_w := w; tr_r := repeat Eof k |} in
-  map view_of rs = repeat VEof n /\ tr_w t = w.
-Proof.
-  induction n; intros k b w; [cbn; auto|].
-  destruct k; cbn.
-  - specialize (IHn 0 b w). cbn in IHn. destruct (tr_results n _) as [rs t]. cbn. destruct IHn. split; [f_equal|]; assumption.
-  - specialize (IHn k b w). destruct (tr_results n _) as [rs t]. cbn. destruct IHn. split; [f_equal|]; assumption.
-Qed.
-
-Lemma tr_transparent_shape : forall X n k b w,
-  let '(rs, t) := tr_results n {| tr_b := b; tr_w := w; tr_r := map Data X ++ repeat Eof k |} in
-  map view_of rs = transparent X n /\ tr_w t = w ++ firstn n X.
-Proof.
-  unfold transparent. induction X as [|x X IH]; intros n k b w.
-  - cbn [map app]. pose proof (tr_results_eofs n k b w) as H. destruct (tr_results n _) as [rs t].
-    destruct H as [H1 H2]. split.
-    + rewrite H1. symmetry. apply firstn_repeat. lia.
-    + rewrite H2. destruct n; cbn; now rewrite app_nil_r.
-  - destruct n; [cbn; now rewrite app_nil_r|]. cbn.
-    specialize (IH n k x (w ++ [x])). destruct (tr_results n _) as [rs t]. destruct IH as [H1 H2]. cbn. split.
-    + f_equal. rewrite H1. change (VEof :: repeat VEof n) with (repeat VEof (S n)).
-      rewrite !firstn_app, !map_length. f_equal. rewrite !firstn_repeat by lia. reflexivity.
-    + rewrite H2, <- app_assoc. reflexivity.
-Qed.
-
-Lemma adaptor_transparent_tr : forall X sc n, legal X sc -> clean sc = true ->
-  let '(rs, t) := tr_results n (my_tee_reader sc) in
-  map view_of rs = transparent X n /\ tr_w t = firstn n X.
-Proof.
-  intros X sc n Hl Hc. destruct (clean_shape _ _ Hl Hc) as [k ->].
-  apply (tr_transparent_shape X n k zero_byte []).
-Qed.
-
-(* ------------------------------------------------------------------ drive over a clean schedule = direct *)
+(* ------------------------------------------------------------------ drive = direct *)
 
 Section Drive.
-Context {R : Type} (M : machine R).
+Context {R A : Type} (M : machine R) (rb : A -> rbres * A) (src : A -> list rev) (P : list rev -> bool).
+(* the reader behaves like "skip the (0,nil) reads, use the byte when n > 0" on every schedule that satisfies P *)
+Hypothesis Hrb : forall a, P (src a) = true ->
+  exists a', rb a = (fst (ev_res (next_event (src a))), a') /\ src a' = snd (next_event (src a)) /\ P (src a') = true.
 
-Lemma drive_br_clean : forall X k st b fuel, length X < fuel ->
-  exists b' k', k' <= k /\
-    drive M br_read_byte fuel st {| br_b := b; br_r := map Data X ++ repeat Eof k |} =
-    Some (fst (direct M st X),
-          {| br_b := b'; br_r := map Data (skipn (snd (direct M st X)) X) ++ repeat Eof k' |}).
+Lemma drive_legal : forall fuel st a, legal_tail (src a) = true -> P (src a) = true -> length (src a) < fuel ->
+  exists a', drive M rb fuel st a = Some (fst (direct M st (delivered (src a))), a') /\
+             delivered (src a') = skipn (snd (direct M st (delivered (src a)))) (delivered (src a)) /\
+             legal_tail (src a') = true /\ P (src a') = true.
 Proof.
-  induction X as [|x X IH]; intros k st b fuel Hf.
-  - destruct fuel; [cbn in Hf; lia|]. destruct k; cbn.
-    + exists b, 0. split; [lia|reflexivity].
-    + exists b, k. split; [lia|reflexivity].
-  - destruct fuel; [cbn in Hf; lia|]. cbn in Hf. cbn.
-    destruct (m_step M st x) as [st'|r] eqn:E.
-    + destruct (IH k st' x fuel) as (b' & k' & Hk & Hd); [lia|].
-      exists b', k'. split; [assumption|]. rewrite Hd.
-      destruct (direct M st' X) as [r n]. reflexivity.
-    + exists x, k. split; [lia|]. reflexivity.
-Qed.
-
-Lemma drive_tr_clean : forall X k st b w fuel, length X < fuel ->
-  exists b' k', k' <= k /\
-    drive M tr_read_byte fuel st {| tr_b := b; tr_w := w; tr_r := map Data X ++ repeat Eof k |} =
-    Some (fst (direct M st X),
-          {| tr_b := b'; tr_w := w ++ firstn (snd (direct M st X)) X;
-             tr_r := map Data (skipn (snd (direct M st X)) X) ++ repeat Eof k' |}).
-Proof.
-  induction X as [|x X IH]; intros k st b w fuel Hf.
-  - destruct fuel; [cbn in Hf; lia|]. destruct k; cbn; rewrite app_nil_r.
-    + exists b, 0. split; [lia|reflexivity].
-    + exists b, k. split; [lia|reflexivity].
-  - destruct fuel; [cbn in Hf; lia|]. cbn in Hf. cbn.
-    destruct (m_step M st x) as [st'|r] eqn:E.
-    + destruct (IH k st' x (w ++ [x]) fuel) as (b' & k' & Hk & Hd); [lia|].
-      exists b', k'. split; [assumption|]. rewrite Hd.
-      destruct (direct M st' X) as [r n]. cbn. rewrite <- app_assoc. reflexivity.
-    + exists x, k. split; [lia|]. reflexivity.
+  induction fuel as [|f IH]; intros st a Hl Hp Hf; [lia|].
+  destruct (Hrb a Hp) as (a1 & E & Hs & Hp1).
+  destruct (next_legal (src a) Hl) as (Hl1 & Hle & Hlt & Hev).
+  cbn [drive]. rewrite E. rewrite <- Hs in Hl1, Hle, Hlt, Hev.
+  destruct (next_event (src a)) as [e t]. unfold ev_res in *. cbn [fst snd] in *.
+  destruct e; try contradiction; cbn [fst].
+  - assert (Hf1 : length (src a1) < f).
+    { assert (Hne : src a <> []) by (intro Z; rewrite Z in Hev; discriminate). specialize (Hlt Hne). lia. }
+    rewrite Hev. cbn [direct]. destruct (m_step M st b) as [st'|r].
+    + destruct (IH st' a1 Hl1 Hp1 Hf1) as (a' & Ed & Hd & Hl' & Hp'). exists a'. rewrite Ed.
+      destruct (direct M st' (delivered (src a1))) as [r n]. cbn [fst snd skipn] in *. auto.
+    + exists a1. cbn. auto.
+  - assert (Hf1 : length (src a1) < f).
+    { assert (Hne : src a <> []) by (intro Z; rewrite Z in Hev; discriminate). specialize (Hlt Hne). lia. }
+    rewrite Hev. cbn [direct]. destruct (m_step M st b) as [st'|r].
+    + destruct (IH st' a1 Hl1 Hp1 Hf1) as (a' & Ed & Hd & Hl' & Hp'). exists a'. rewrite Ed.
+      destruct (direct M st' (delivered (src a1))) as [r n]. cbn [fst snd skipn] in *. auto.
+    + exists a1. cbn. auto.
+  - destruct Hev as [H0 Ht]. rewrite H0. cbn. exists a1. rewrite Ht. auto.
 Qed.
 
 (* consumption never exceeds the input *)
@@ -184,41 +197,90 @@ Proof.
 Qed.
 End Drive.
 
-(* ------------------------------------------------------------------ the reader entry points on clean schedules *)
-
-Lemma skipn_clean_for : forall X n k, clean_for (skipn n X) (map Data (skipn n X) ++ repeat Eof k).
-Proof. intros. now exists k. Qed.
-
-Lemma new_map_xml_reader_clean : forall (M : xmachine) X sc, clean_for X sc ->
-  exists sc', new_map_xml_reader M sc = Some (fst (direct M (m_init M) X), sc') /\
-              clean_for (skipn (snd (direct M (m_init M) X)) X) sc'.
+(* the tee buffer grows by exactly the bytes taken from the reader *)
+Lemma tr_loop_log : forall i t, exists d,
+  delivered (tr_r t) = d ++ delivered (tr_r (snd (tr_loop i t))) /\ tr_w (snd (tr_loop i t)) = tr_w t ++ d.
 Proof.
-  intros M X sc [k ->]. unfold new_map_xml_reader, my_byte_reader.
-  destruct (drive_br_clean M X k (m_init M) zero_byte (S (length (map Data X ++ repeat Eof k)))) as (b' & k' & _ & Hd).
-  { rewrite app_length, map_length. lia. }
-  rewrite Hd. eexists. split; [reflexivity|]. cbn. now exists k'.
+  induction i as [|i IH]; intro t; [exists []; cbn; now rewrite app_nil_r|].
+  destruct t as [w sc]. cbn [tr_loop tr_r tr_w]. destruct sc as [|e sc]; [exists []; cbn; now rewrite app_nil_r|].
+  destruct e; cbn.
+  - exists [b]. auto.
+  - exists [b]. auto.
+  - apply (IH {| tr_w := w; tr_r := sc |}).
+  - exists []. cbn. now rewrite app_nil_r.
 Qed.
 
-Lemma new_map_xml_reader_raw_clean : forall (M : xmachine) X sc, clean_for X sc ->
+Lemma drive_tr_log : forall {R} (M : machine R) fuel st t r t', drive M tr_read_byte fuel st t = Some (r, t') ->
+  exists d, delivered (tr_r t) = d ++ delivered (tr_r t') /\ tr_w t' = tr_w t ++ d.
+Proof.
+  intros R M. induction fuel as [|f IH]; intros st t r t' H; [discriminate|].
+  cbn [drive] in H. unfold tr_read_byte in H. destruct (tr_loop_log 100 t) as (d & Hd & Hw).
+  destruct (tr_loop 100 t) as [rr t1]. cbn [snd] in *. destruct rr as [b|[|]].
+  - destruct (m_step M st b) as [st'|r0].
+    + destruct (IH st' t1 r t' H) as (d' & Hd' & Hw'). exists (d ++ d'). rewrite Hd, Hd', Hw', Hw, !app_assoc. auto.
+    + injection H as <- <-. eauto.
+  - injection H as <- <-. eauto.
+  - injection H as <- <-. eauto.
+Qed.
+
+(* ------------------------------------------------------------------ the reader entry points *)
+
+(* sc is a legal schedule of X on which the reader P-behaves *)
+Definition okfor (P : list rev -> bool) (X : str) (sc : list rev) : Prop :=
+  delivered sc = X /\ legal_tail sc = true /\ P sc = true.
+Definition anysc (_ : list rev) : bool := true.
+
+Lemma okfor_length : forall P X sc, okfor P X sc -> length X <= length sc.
+Proof. intros P X sc [<- _]. apply delivered_length. Qed.
+
+Lemma new_map_xml_reader_ok : forall (M : xmachine) X sc, okfor zero_bounded X sc ->
+  exists sc', new_map_xml_reader M sc = Some (fst (direct M (m_init M) X), sc') /\
+              okfor zero_bounded (skipn (snd (direct M (m_init M) X)) X) sc'.
+Proof.
+  intros M X sc (Hd & Hl & Hz). unfold new_map_xml_reader.
+  destruct (drive_legal M br_read_byte (fun a => a) zero_bounded) with (fuel := S (length sc)) (st := m_init M) (a := sc)
+    as (sc' & E & Hd' & Hl' & Hz'); try assumption; [|lia|].
+  - intros a Ha. destruct (br_read_spec a Ha) as [E Hz']. exists (snd (next_event a)). rewrite E. unfold ev_res. cbn.
+    destruct (fst (next_event a)); auto.
+  - rewrite Hd in *. exists sc'. split; [exact E|]. split; auto.
+Qed.
+
+Lemma new_map_xml_reader_raw_ok : forall (M : xmachine) X sc, okfor zero_bounded X sc ->
   exists sc', new_map_xml_reader_raw M sc =
                 Some (fst (direct M (m_init M) X), firstn (snd (direct M (m_init M) X)) X, sc') /\
-              clean_for (skipn (snd (direct M (m_init M) X)) X) sc'.
+              okfor zero_bounded (skipn (snd (direct M (m_init M) X)) X) sc'.
 Proof.
-  intros M X sc [k ->]. unfold new_map_xml_reader_raw, my_tee_reader.
-  destruct (drive_tr_clean M X k (m_init M) zero_byte [] (S (length (map Data X ++ repeat Eof k)))) as (b' & k' & _ & Hd).
-  { rewrite app_length, map_length. lia. }
-  rewrite Hd. eexists. split; [reflexivity|]. cbn. now exists k'.
+  intros M X sc (Hd & Hl & Hz). unfold new_map_xml_reader_raw.
+  destruct (drive_legal M tr_read_byte tr_r zero_bounded) with (fuel := S (length sc)) (st := m_init M) (a := my_tee_reader sc)
+    as (t' & E & Hd' & Hl' & Hz'); try assumption; [|cbn; lia|].
+  - intros [w a] Ha. cbn [tr_r] in *. unfold tr_read_byte. rewrite tr_loop_br. fold (br_read_byte a).
+    destruct (br_read_spec a Ha) as [E Hz']. rewrite E. eexists. split; [reflexivity|].
+    unfold ev_res. destruct (fst (next_event a)); cbn; auto.
+  - cbn [my_tee_reader tr_r] in *. rewrite E. destruct (drive_tr_log M _ _ _ _ _ E) as (d & Hdd & Hw).
+    cbn [my_tee_reader tr_r tr_w app] in *. rewrite Hd in *.
+    assert (d = firstn (snd (direct M (m_init M) X)) X).
+    { rewrite Hd' in Hdd. rewrite <- (firstn_skipn (snd (direct M (m_init M) X)) X) in Hdd at 1. now apply app_inv_tail in Hdd. }
+    rewrite H in Hw. exists (tr_r t'). rewrite Hw. split; [reflexivity|]. split; auto.
 Qed.
 
-Lemma get_json_clean : forall X sc, clean_for X sc ->
+Lemma get_json_ok : forall X sc, okfor anysc X sc ->
   exists sc', get_json sc = Some (fst (direct jmachine jinit X), sc') /\
-              clean_for (skipn (snd (direct jmachine jinit X)) X) sc'.
+              okfor anysc (skipn (snd (direct jmachine jinit X)) X) sc'.
 Proof.
-  intros X sc [k ->]. unfold get_json, my_byte_reader.
-  destruct (drive_br_clean jmachine X k jinit zero_byte (S (length (map Data X ++ repeat Eof k)))) as (b' & k' & _ & Hd).
-  { rewrite app_length, map_length. lia. }
-  rewrite Hd. eexists. split; [reflexivity|]. cbn. now exists k'.
+  intros X sc (Hd & Hl & _). unfold get_json.
+  destruct (drive_legal jmachine jr_read_byte (fun a => a) anysc) with (fuel := S (length sc)) (st := jinit) (a := sc)
+    as (sc' & E & Hd' & Hl' & _); try assumption; try reflexivity; [|lia|].
+  - intros a _. exists (snd (next_event a)). rewrite jr_read_spec. unfold ev_res. cbn. destruct (fst (next_event a)); auto.
+  - rewrite Hd in *. exists sc'. split; [exact E|]. split; auto.
 Qed.
+
+(* legal + bounded = okfor *)
+Lemma legal_okfor : forall X sc, legal X sc -> zero_bounded sc = true -> okfor zero_bounded X sc.
+Proof. intros X sc [Hd Hl] Hz. repeat split; assumption. Qed.
+Lemma legal_okfor_any : forall X sc, legal X sc -> okfor anysc X sc.
+Proof. intros X sc [Hd Hl]. repeat split; assumption. Qed.
+Lemma okfor_legal : forall P X sc, okfor P X sc -> legal X sc /\ P sc = true.
+Proof. intros P X sc (Hd & Hl & Hp). repeat split; assumption. Qed.
 
 (* ------------------------------------------------------------------ reading document after document *)
 
@@ -234,30 +296,30 @@ Fixpoint docs_direct (M : xmachine) (fuel : nat) (X : str) : list (res value * s
       end
   end.
 
-Lemma read_docs_raw_clean : forall (M : xmachine) fuel X sc, clean_for X sc ->
+Lemma read_docs_raw_ok : forall (M : xmachine) fuel X sc, okfor zero_bounded X sc ->
   read_docs (new_map_xml_reader_raw M) fuel sc = docs_direct M fuel X.
 Proof.
   intros M. induction fuel as [|f IH]; intros X sc Hc; [reflexivity|].
-  cbn. destruct (new_map_xml_reader_raw_clean M X sc Hc) as (sc' & -> & Hc').
+  cbn. destruct (new_map_xml_reader_raw_ok M X sc Hc) as (sc' & -> & Hc').
   destruct (direct M (m_init M) X) as [r n]. cbn in *.
   destruct r; try reflexivity. f_equal. now apply IH.
 Qed.
 
-Lemma read_docs_noraw_clean : forall (M : xmachine) fuel X sc, clean_for X sc ->
+Lemma read_docs_noraw_ok : forall (M : xmachine) fuel X sc, okfor zero_bounded X sc ->
   read_docs (noraw (new_map_xml_reader M)) fuel sc = map (fun p => (fst p, tt)) (docs_direct M fuel X).
 Proof.
   intros M. induction fuel as [|f IH]; intros X sc Hc; [reflexivity|].
-  cbn. unfold noraw at 1. destruct (new_map_xml_reader_clean M X sc Hc) as (sc' & -> & Hc').
+  cbn. unfold noraw at 1. destruct (new_map_xml_reader_ok M X sc Hc) as (sc' & -> & Hc').
   destruct (direct M (m_init M) X) as [r n]. cbn in *.
   destruct r; try reflexivity. cbn. f_equal. now apply IH.
 Qed.
 
-(* a successful call consumes at least one byte when io.EOF from the reader is an error for the decoder *)
+(* a successful call consumes at least one byte when an error from the reader is an error for the decoder *)
 Lemma direct_ok_pos : forall (M : xmachine) X v n, eof_is_error M ->
   direct M (m_init M) X = (Ok v, n) -> 1 <= n.
 Proof.
   intros M X v n He H. destruct X as [|x X]; cbn in H.
-  - injection H as H _. specialize (He (m_init M)). rewrite H in He. discriminate.
+  - injection H as H _. destruct (He (m_init M)) as [He1 _]. rewrite H in He1. discriminate.
   - destruct (m_step M (m_init M) x); [destruct (direct M _ X)|]; injection H as _ <-; lia.
 Qed.
 
@@ -273,31 +335,31 @@ Proof.
   apply IH; rewrite skipn_length; lia.
 Qed.
 
-(* schedule independence: whatever two clean legal schedules of the same stream are used *)
+(* schedule independence: whatever two legal schedules of the same stream are used *)
 Lemma read_docs_raw_indep : forall (M : xmachine) X s1 s2, eof_is_error M ->
-  legal X s1 -> clean s1 = true -> legal X s2 -> clean s2 = true ->
+  legal X s1 -> zero_bounded s1 = true -> legal X s2 -> zero_bounded s2 = true ->
   read_docs (new_map_xml_reader_raw M) (S (length s1)) s1 =
   read_docs (new_map_xml_reader_raw M) (S (length s2)) s2.
 Proof.
   intros M X s1 s2 He L1 C1 L2 C2.
-  pose proof (clean_shape _ _ L1 C1) as H1. pose proof (clean_shape _ _ L2 C2) as H2.
-  rewrite (read_docs_raw_clean M _ X s1 H1), (read_docs_raw_clean M _ X s2 H2).
+  pose proof (legal_okfor _ _ L1 C1) as H1. pose proof (legal_okfor _ _ L2 C2) as H2.
+  rewrite (read_docs_raw_ok M _ X s1 H1), (read_docs_raw_ok M _ X s2 H2).
   apply docs_direct_fuel; [assumption| |].
-  - pose proof (clean_for_length _ _ H1). lia.
-  - pose proof (clean_for_length _ _ H2). lia.
+  - pose proof (okfor_length _ _ _ H1). lia.
+  - pose proof (okfor_length _ _ _ H2). lia.
 Qed.
 
 Lemma read_docs_indep : forall (M : xmachine) X s1 s2, eof_is_error M ->
-  legal X s1 -> clean s1 = true -> legal X s2 -> clean s2 = true ->
+  legal X s1 -> zero_bounded s1 = true -> legal X s2 -> zero_bounded s2 = true ->
   read_docs (noraw (new_map_xml_reader M)) (S (length s1)) s1 =
   read_docs (noraw (new_map_xml_reader M)) (S (length s2)) s2.
 Proof.
   intros M X s1 s2 He L1 C1 L2 C2.
-  pose proof (clean_shape _ _ L1 C1) as H1. pose proof (clean_shape _ _ L2 C2) as H2.
-  rewrite (read_docs_noraw_clean M _ X s1 H1), (read_docs_noraw_clean M _ X s2 H2). f_equal.
+  pose proof (legal_okfor _ _ L1 C1) as H1. pose proof (legal_okfor _ _ L2 C2) as H2.
+  rewrite (read_docs_noraw_ok M _ X s1 H1), (read_docs_noraw_ok M _ X s2 H2). f_equal.
   apply docs_direct_fuel; [assumption| |].
-  - pose proof (clean_for_length _ _ H1). lia.
-  - pose proof (clean_for_length _ _ H2). lia.
+  - pose proof (okfor_length _ _ _ H1). lia.
+  - pose proof (okfor_length _ _ _ H2). lia.
 Qed.
 
 (* ------------------------------------------------------------------ streams of documents *)
@@ -308,7 +370,10 @@ Lemma skipn_app_exact {A} (a b : list A) : skipn (length a) (a ++ b) = b.
 Proof. rewrite skipn_app, Nat.sub_diag, skipn_all. reflexivity. Qed.
 
 Definition docs_ok (M : xmachine) (ds : list (str * str)) : Prop :=
-  Forall (fun wd => blank (fst wd) = true /\ stops_at M (snd wd) /\ is_ok (decode_doc M (snd wd)) = true) ds.
+  Forall (fun wd => blank (fst wd) = true /\ stops_at M (snd wd) /\ is_okmap (decode_doc M (snd wd)) = true) ds.
+
+Lemma okmap_ok : forall r, is_okmap r = true -> exists m, r = Ok (VMap m).
+Proof. intros [[]| |] H; try discriminate. eauto. Qed.
 
 Lemma docs_direct_stream : forall (M : xmachine) ds tail fuel,
   docs_ok M ds -> eof_on_blanks M -> blank tail = true -> length ds < fuel ->
@@ -319,7 +384,7 @@ Proof.
   - destruct fuel; [cbn in Hf; lia|]. cbn in Hf.
     inversion Hd as [|? ? [Hw [Hs Hok]] Hd']; subst. cbn in Hw, Hs, Hok.
     cbn [stream docs_direct]. rewrite (Hs w (stream ds tail) Hw).
-    destruct (decode_doc M d) as [v| |] eqn:E; try discriminate.
+    destruct (okmap_ok _ Hok) as [m E].
     unfold expected_raw. cbn [map app fst snd]. rewrite E.
     rewrite <- app_length, app_assoc, firstn_app_exact, skipn_app_exact.
     f_equal. apply IH; [assumption|assumption|assumption|lia].
@@ -337,7 +402,7 @@ Qed.
 
 (* a document that decodes to a Map is not empty when blanks alone give io.EOF *)
 Lemma ok_doc_nonempty : forall (M : xmachine) w d, eof_on_blanks M ->
-  is_ok (decode_doc M d) = true -> w ++ d <> [].
+  is_okmap (decode_doc M d) = true -> w ++ d <> [].
 Proof.
   intros M w d He Hok E. apply app_eq_nil in E as [-> ->].
   unfold decode_doc in Hok. rewrite (He [] eq_refl) in Hok. discriminate.
@@ -351,34 +416,30 @@ Proof.
   exact (ok_doc_nonempty M w d He Hok E).
 Qed.
 
-(* the Raw reader over any clean legal schedule of a stream: the documents decoded directly, each with the
-   bytes consumed for it, then io.EOF *)
 Lemma read_docs_raw_stream : forall (M : xmachine) ds tail sc,
   docs_ok M ds -> eof_on_blanks M -> blank tail = true ->
-  legal (stream ds tail) sc -> clean sc = true ->
+  legal (stream ds tail) sc -> zero_bounded sc = true ->
   read_docs (new_map_xml_reader_raw M) (S (length sc)) sc = expected_raw M ds tail.
 Proof.
   intros M ds tail sc Hd He Ht Hl Hc.
-  pose proof (clean_shape _ _ Hl Hc) as Hs.
-  rewrite (read_docs_raw_clean M _ _ sc Hs).
+  pose proof (legal_okfor _ _ Hl Hc) as Hs.
+  rewrite (read_docs_raw_ok M _ _ sc Hs).
   apply docs_direct_stream; try assumption.
-  pose proof (clean_for_length _ _ Hs). pose proof (stream_length_ok M ds tail Hd He). lia.
+  pose proof (okfor_length _ _ _ Hs). pose proof (stream_length_ok M ds tail Hd He). lia.
 Qed.
 
 Lemma read_docs_stream : forall (M : xmachine) ds tail sc,
   docs_ok M ds -> eof_on_blanks M -> blank tail = true ->
-  legal (stream ds tail) sc -> clean sc = true ->
+  legal (stream ds tail) sc -> zero_bounded sc = true ->
   read_docs (noraw (new_map_xml_reader M)) (S (length sc)) sc = expected M ds.
 Proof.
   intros M ds tail sc Hd He Ht Hl Hc.
-  pose proof (clean_shape _ _ Hl Hc) as Hs.
-  rewrite (read_docs_noraw_clean M _ _ sc Hs), docs_direct_stream; try assumption.
+  pose proof (legal_okfor _ _ Hl Hc) as Hs.
+  rewrite (read_docs_noraw_ok M _ _ sc Hs), docs_direct_stream; try assumption.
   - unfold expected_raw, expected. rewrite map_app, map_map. reflexivity.
-  - pose proof (clean_for_length _ _ Hs). pose proof (stream_length_ok M ds tail Hd He). lia.
+  - pose proof (okfor_length _ _ _ Hs). pose proof (stream_length_ok M ds tail Hd He). lia.
 Qed.
 
-(* raw_prefix: the concatenation of the raw values is the stream itself (hence every partial
-   concatenation a prefix), and each raw value contains its document *)
 Lemma expected_raw_concat : forall (M : xmachine) ds tail,
   concat (map snd (expected_raw M ds tail)) = stream ds tail.
 Proof.
